@@ -207,15 +207,16 @@ func (tw *TimingWheel) moveTask(task baseEntry) {
 		return
 	}
 
-	pos, circle := tw.getPositionAndCircle(task.delay)
-	if pos >= timer.pos {
-		timer.item.circle = circle
-		timer.item.diff = pos - timer.pos
-	} else if circle > 0 {
-		circle--
-		timer.item.circle = circle
-		timer.item.diff = tw.numSlots + pos - timer.pos
+	// ticks to wait before the slot holding the timer is scanned again, in [1, numSlots]
+	wait := (timer.pos-tw.tickedPos+tw.numSlots-1)%tw.numSlots + 1
+	steps := int(task.delay / tw.interval)
+	if steps >= wait {
+		// let the timer stay in its slot, relocate or fire it when the slot is scanned
+		remain := steps - wait
+		timer.item.circle = remain / tw.numSlots
+		timer.item.diff = remain % tw.numSlots
 	} else {
+		pos, _ := tw.getPositionAndCircle(task.delay)
 		timer.item.removed = true
 		newItem := &timingEntry{
 			baseEntry: task,
